@@ -12,6 +12,7 @@ PYTHONPATH=/repo /venv/bin/python _seeded/demo.py > $OUT/demo_on_repo.log 2>&1; 
 PYTHONPATH=$WT /venv/bin/python -m pytest -q -p no:cacheprovider --timeout=900 tests 2>&1 | tail -1 > $OUT/tests.log
 echo "demo with patch exit=$A ; on /repo exit=$B ; tests: $(cat $OUT/tests.log)"
 cd /verif
+rm -rf /var/tmp/lpverif/evidence.keep && cp -r /verif/evidence /var/tmp/lpverif/evidence.keep   # evidence of the unchanged tree is what stays committed
 git -C /repo apply --whitespace=nowarn $OUT/patch.diff || { echo "PATCH DOES NOT APPLY"; exit 3; }
 RES=""
 for c in "$@"; do
@@ -20,6 +21,7 @@ for c in "$@"; do
   grep -h "VIOLATION\|KNOWN-FINDING" $OUT/check_$c.log | head -3
 done
 git -C /repo checkout -- .
+rm -rf /verif/evidence && mv /var/tmp/lpverif/evidence.keep /verif/evidence
 (cd /verif/tools && python3 -c 'import extract; extract.regenerate()')   # Generated/ back to the unchanged tree 
 echo "RESULT $NAME demo_patch=$A demo_repo=$B $RES"
 python3 - <<PY
